@@ -19,7 +19,11 @@ cp "$DEMO" "$WT/$place"
 echo "== demo on unchanged tree (must pass)"
 if go test -vet=off -count=1 ./$pkgdir/ -run "$(grep -o 'func Test[A-Za-z0-9_]*' "$DEMO" | sed 's/func //' | paste -sd'|')" >"$WT/.demo0.log" 2>&1; then echo "demo_without=pass"; else echo "demo_without=FAIL"; tail -5 "$WT/.demo0.log"; fi
 rm -f "$WT/$place"
-git apply "$PATCH" || { echo "patch does not apply to HEAD"; exit 2; }
+if ! git apply "$PATCH" 2>/dev/null; then
+  # the tree has moved on since the change was written: try a three-way merge of the patch (tools/seedrebase.sh rewrites the stored patch that way)
+  git apply --3way "$PATCH" >/dev/null 2>&1 && ! git status --short | grep -q '^U' && git reset -q || { echo "patch does not apply to HEAD"; exit 2; }
+  echo "patch_applied=three-way"
+fi
 echo "== build + suite with the change (must pass)"
 if go build ./pkg/... ./test/... >"$WT/.build.log" 2>&1 && go test -vet=off -count=1 ./pkg/... ./test/... >"$WT/.suite.log" 2>&1; then echo "suite_with=pass"; else echo "suite_with=FAIL"; tail -15 "$WT/.suite.log" "$WT/.build.log"; fi
 cp "$DEMO" "$WT/$place"
